@@ -11,7 +11,7 @@ from props import srv_judge as SJ
 def scenario(args):
     seed, kw = args
     import srvworld as SW
-    w = SW.ServerWorld(seed=seed, interval=kw["interval"], conn_timeout=kw["conn_timeout"], keepalive=kw["srv_ka"], temp_timeout=kw.get("temp_timeout"), msg_timeout=kw.get("srv_mt"))
+    w = SW.ServerWorld(seed=seed, interval=kw["interval"], conn_timeout=kw["conn_timeout"], keepalive=kw["srv_ka"], temp_timeout=kw.get("temp_timeout"), msg_timeout=kw.get("srv_mt"), late_config=kw.get("late_config", False))
     try:
         tps = int(round(1 / kw["interval"]))           # ticks per second
         order = kw.get("setters", ())                   # sequence of ("ka"|"mt"|"ct", value, "before"|"after")
@@ -126,6 +126,13 @@ def run(ctx):
             setters = tuple((k, vals[k], wn) for k, wn in zip(perm, ws))
             jobs.append((ctx.seed, dict(interval=1 / 60, srv_ka=0.1, conn_timeout=5.0, setters=setters, idle=2.0, probe_mt=True)))
             names.append("setters %s" % (setters,))
+    # every second run configures the ServerContext AFTER the server object was built (still before it starts)
+    jobs = [(sd, dict(kw, late_config=bool(k % 2))) for k, (sd, kw) in enumerate(jobs)]
+    names = [nm + (" [configured after the server object was built]" if k % 2 else "") for k, nm in enumerate(names)]
+    # a half-open handshake is forgotten after the configured temp time-out, also when that was configured late
+    for late in (False, True):
+        jobs.append((ctx.seed, dict(interval=1 / 60, srv_ka=0.1, conn_timeout=1.5, temp_timeout=0.5, idle=2.0, cut_after=30, late_config=late)))
+        names.append("short time-outs 1.5 s / 0.5 s%s" % (" [configured after the server object was built]" if late else ""))
     from concurrent.futures import ProcessPoolExecutor
     with ProcessPoolExecutor(16) as ex:
         traces = list(ex.map(scenario, jobs))
